@@ -29,6 +29,7 @@ def norm_dicts(s):
     except Exception: return s
 
 class EqGen:
+    """values as trees (so that a value can be PERTURBED at one numeric leaf into a host-hash-colliding partner), rendered to program text"""
     def __init__(s, R): s.R = R
     def integer(s):
         R = s.R; k = R.random(); base = R.choice([0, 1, -1, -2, 2, 5, 2**53, 2**53 + 1, 2**60, 7])
@@ -36,35 +37,71 @@ class EqGen:
         if k < .7: return base + R.choice([1, -1, 2]) * MP
         if k < .8: return R.choice([-1, -2])
         return R.randrange(-5, 6)
-    def atom(s):
+    def atom_t(s):
         R = s.R; k = R.random()
-        if k < .35: return E(s.integer())
-        if k < .55: return call("ㅅㅅ", [E(R.choice([0, 1, -1, 2, 2**53, 2**53 + 1, 2**60, 2**61 - 1, R.randrange(-5, 6)]))])
-        if k < .60: return call("ㅂ", ["ㅂ", "ㅅ", "ㅁ"])
-        if k < .70: return call(R.choice(["ㅈㅈ", "ㄱㅈ"]), [])
-        if k < .82: return call("ㅁㅈ", [E(R.randrange(-3, 4))])
-        if k < .88: return call("ㅂㄱ", [])
-        return E(R.randrange(-2, 3))
-    def val(s, d):
+        if k < .35: return ("int", s.integer())
+        if k < .55: return ("float", R.choice([0, 1, -1, 2, 2**53, 2**53 + 1, 2**60, 2**61 - 1, R.randrange(-5, 6)]))
+        if k < .60: return ("inf",)
+        if k < .70: return ("bool", R.random() < .5)
+        if k < .82: return ("str", R.randrange(-3, 4))
+        if k < .88: return ("nil",)
+        return ("int", R.randrange(-2, 3))
+    def val_t(s, d):
         R = s.R; k = R.random()
-        if d <= 0 or k < .5: return s.atom()
-        if k < .7: return call("ㅁㄹ", [s.val(d - 1) for _ in range(R.randrange(0, 4))])
-        if k < .8: return call("ㄷㅂ", [s.val(d - 1) for _ in range(R.randrange(0, 3))])
-        return s.dic(d - 1)
-    def dic(s, d):
-        kv = []
-        for _ in range(s.R.randrange(0, 4)): kv += [s.key(d), s.val(d)]
-        return call("ㅅㅈ", kv)
-    def key(s, d): return s.atom() if s.R.random() < .8 else s.val(d)
+        if d <= 0 or k < .5: return s.atom_t()
+        if k < .7: return ("list", [s.val_t(d - 1) for _ in range(R.randrange(0, 4))])
+        if k < .8: return ("exc", [s.val_t(d - 1) for _ in range(R.randrange(0, 3))])
+        return s.dic_t(d - 1)
+    def dic_t(s, d): return ("dict", [(s.key_t(d), s.val_t(d)) for _ in range(s.R.randrange(0, 4))])
+    def key_t(s, d): return s.atom_t() if s.R.random() < .8 else s.val_t(d)
+    def render(s, t):
+        k = t[0]
+        if k == "int": return E(t[1])
+        if k == "float": return call("ㅅㅅ", [E(t[1])])
+        if k == "inf": return call("ㅂ", ["ㅂ", "ㅅ", "ㅁ"])
+        if k == "bool": return call("ㅈㅈ" if t[1] else "ㄱㅈ", [])
+        if k == "str": return call("ㅁㅈ", [E(t[1])])
+        if k == "nil": return call("ㅂㄱ", [])
+        if k == "list": return call("ㅁㄹ", [s.render(x) for x in t[1]])
+        if k == "exc": return call("ㄷㅂ", [s.render(x) for x in t[1]])
+        return call("ㅅㅈ", [y for kv in t[1] for y in (s.render(kv[0]), s.render(kv[1]))])
+    def perturb(s, t):
+        """one numeric leaf replaced by a partner that is DIFFERENT but whose host hash collides (or by the equal number of the other kind)"""
+        R = s.R; k = t[0]
+        if k in ("int", "float"):
+            n = t[1]; c = R.random()
+            if c < .35: return (k, n + R.choice([1, -1, 2, -2]) * MP)
+            if c < .5 and n in (-1, -2): return (k, -3 - n)
+            if c < .7: return ("float" if k == "int" else "int", n)          # numerically equal across the tower (when exactly representable)
+            if c < .85: return (k, n + 1)
+            return (k, n * 2**61 if n else 2**61 - 1)
+        if k in ("list", "exc") and t[1]:
+            i = R.randrange(len(t[1])); return (k, [s.perturb(x) if j == i else x for j, x in enumerate(t[1])])
+        if k == "dict" and t[1]:
+            i = R.randrange(len(t[1])); side = R.random() < .5
+            return (k, [((s.perturb(a) if side else a), (b if side else s.perturb(b))) if j == i else (a, b) for j, (a, b) in enumerate(t[1])])
+        return t
+    def atom(s): return s.render(s.atom_t())
+    def val(s, d): return s.render(s.val_t(d))
+    def dic(s, d): return s.render(s.dic_t(d))
+    def key(s, d): return s.render(s.key_t(d))
     def prog(s):
         R = s.R; k = R.random(); d = R.randrange(0, 3)
         if k < .35:
-            a = s.val(d); b = a if R.random() < .3 else s.val(d)
+            at = s.val_t(d); c = R.random(); bt = at if c < .2 else s.perturb(at) if c < .6 else s.val_t(d)
+            a, b = s.render(at), s.render(bt)
             if R.random() < .08: a = call("ㅂ", ["ㅂ", "ㅅ", "ㄴ"])       # NaN only as a top-level operand
             return call("ㄴ", [a, b]), "eq"
-        if k < .45: a = s.val(d); return call("ㄴ", [a, s.val(d), a]), "eq3"
-        if k < .75: return s.key(1) + " " + s.dic(d) + " ㅎㄴ", "lookup"
-        if k < .9: return s.key(1) + " " + call("ㄷ", [s.dic(d), s.dic(d)]) + " ㅎㄴ", "merge-lookup"
+        if k < .45: at = s.val_t(d); return call("ㄴ", [s.render(at), s.render(s.perturb(at)), s.render(at)]), "eq3"
+        if k < .75:
+            dt = s.dic_t(d); kt = s.key_t(1)
+            if dt[1] and R.random() < .6: kt = R.choice(dt[1])[0]; kt = s.perturb(kt) if R.random() < .5 else kt
+            return s.render(kt) + " " + s.render(dt) + " ㅎㄴ", "lookup"
+        if k < .9:
+            d1, d2 = s.dic_t(d), s.dic_t(d); kt = s.key_t(1)
+            if d1[1] and R.random() < .6: kt = R.choice(d1[1])[0]; kt = s.perturb(kt) if R.random() < .5 else kt
+            if d1[1] and R.random() < .4: d2 = ("dict", d2[1] + [(s.perturb(R.choice(d1[1])[0]), s.val_t(0))])
+            return s.render(kt) + " " + call("ㄷ", [s.render(d1), s.render(d2)]) + " ㅎㄴ", "merge-lookup"
         return s.dic(d), "dict"
 
 def c06_eq(r, seed, tier, model_ok):
@@ -86,7 +123,8 @@ def c06_eq(r, seed, tier, model_ok):
     # implementation-only: symmetry and transitivity on value triples, and lookup consistency
     trip = []
     for _ in range(N(tier, 1500, 30000)):
-        d = R.randrange(0, 3); x = g.val(d); y = x if R.random() < .25 else g.val(d); z = y if R.random() < .25 else g.val(d); trip.append((x, y, z))
+        d = R.randrange(0, 3); xt = g.val_t(d); c = R.random(); yt = xt if c < .2 else g.perturb(xt) if c < .6 else g.val_t(d)
+        c = R.random(); zt = yt if c < .2 else g.perturb(yt) if c < .6 else g.val_t(d); trip.append((g.render(xt), g.render(yt), g.render(zt)))
     progs = []
     for x, y, z in trip:
         progs += [call("ㄴ", [x, y]), call("ㄴ", [y, x]), call("ㄴ", [y, z]), call("ㄴ", [x, z]), f"{x} {call('ㅅㅈ', [y, E(7)])} ㅎㄴ"]
